@@ -1187,7 +1187,7 @@ def reuse(ck):
         J = Image(dj, vox2mni(np.eye(4)))
         T = Affine()
         T.translation = [float(F(int(v), 4)) for v in rng.integers(-3, 4, size=3)]
-        sim = ALL_SIMS[n % len(ALL_SIMS)]
+        sim = "slr" if n % 3 == 0 else ALL_SIMS[n % 7]
         vals = []
         for level, spacing in enumerate(([2, 2, 1], [1, 1, 1], [1, 1, 1])):
             replay = {"similarity": sim, "from": keep["from"].tolist(), "to": keep["to"].tolist(), "dist": keep["dist"].tolist(),
